@@ -27,12 +27,14 @@ RULE = ("version-2 certificates built from freshly generated P-256 X.509 chains 
 ASSUMPTIONS = [
     "oracle: pv/oracle/certv2.py; X.509 parsing itself is shared (cryptography), signature "
     "checks are crosswise (ecdsa vs OpenSSL)",
-    "validity windows are at least 2 days away from now, so clock jitter cannot flip a verdict",
+    "validity windows are at least 2 days away from the (possibly shifted) clock, so jitter "
+    "cannot flip a verdict; 30% of the cases run with the clock the certificate code reads "
+    "moved by -1500..+3650 days (windows laid around the moved clock)",
 ]
 FLOORS = {"quick": {"evaluations": 700, "accepted": 150, "refused": 450,
-                    "value_fields_compared": 400},
+                    "value_fields_compared": 400, "cases_under_shifted_clock": 40},
           "thorough": {"evaluations": 80000, "accepted": 6000, "refused": 50000,
-                       "value_fields_compared": 30000}}
+                       "value_fields_compared": 30000, "cases_under_shifted_clock": 2000}}
 
 CORRUPTIONS = ["flip-quote", "flip-quote-report-data", "flip-quote-signature", "flip-custom-data",
                "flip-att-message", "flip-att-report-data", "flip-att-key", "flip-auth-data",
@@ -248,7 +250,7 @@ def compare(acc, doc, root_cert, tmpdir, label, case):
         top = [e["name"] for e in doc["elements"] if e["signed_by"] == "sgx_root"]
         want, soft = {"quote": (False, top[0] if top else None)}, set()
     else:
-        want, soft = o.verify(doc, root_cert)
+        want, soft = o.verify(doc, root_cert, now=g.NOW + g.CLOCK_OFFSET)
     gv = got.get("quote")
     wv = want["quote"]
     if gv is None:
@@ -318,8 +320,46 @@ def compare(acc, doc, root_cert, tmpdir, label, case):
     return gv
 
 
+class shifted_clock:
+    """runs a case with the wall clock the certificate code reads (the name `datetime` in
+    admin.certificate_v2) moved by `offset`: validity must be judged at the time of the
+    validation, whatever that time is"""
+
+    def __init__(self, offset):
+        self.offset = offset
+
+    def __enter__(self):
+        import datetime as _dt
+        import admin.certificate_v2 as cv2
+        off = self.offset
+        self.cv2 = cv2
+        self.saved = cv2.datetime
+
+        class ShiftedDatetime(_dt.datetime):
+            @classmethod
+            def now(cls, tz=None):
+                return _dt.datetime.now(tz) + off
+        cv2.datetime = ShiftedDatetime
+        g.CLOCK_OFFSET = off
+
+    def __exit__(self, *a):
+        import datetime as _dt
+        self.cv2.datetime = self.saved
+        g.CLOCK_OFFSET = _dt.timedelta(0)
+
+
 def run_case(acc, cseed, tmpdir):
+    import datetime as _dt
     rng = random.Random(cseed)
+    if rng.random() < 0.3:
+        days = rng.choice([800, 1500, -800, -1500, 3650])
+        acc.count("cases_under_shifted_clock")
+        with shifted_clock(_dt.timedelta(days=days)):
+            return run_case_at(acc, cseed, tmpdir, rng, "clock%+dd" % days)
+    return run_case_at(acc, cseed, tmpdir, rng, "")
+
+
+def run_case_at(acc, cseed, tmpdir, rng, clock):
     case = {"seed": cseed}
     m = g.build(rng)
     key_form = rng.choice(["uncompressed", "uncompressed", "raw", "compressed"])
@@ -329,7 +369,7 @@ def run_case(acc, cseed, tmpdir):
     gv = compare(acc, doc, m.root_cert, tmpdir, "genuine", case)
     if gv is not None and not gv[0]:
         acc.violation("refused-valid-chain:genuine-by-construction", {"got": gv[1]}, case)
-    acc.distinct.add("genuine|%d|%s" % (len(m.certs), key_form))
+    acc.distinct.add("genuine|%d|%s|%s" % (len(m.certs), key_form, clock))
     if len(acc.samples) < 1:
         acc.sample({"certificate": {k: (v if k != "elements" else [
             {kk: (vv[:80] + "..." if isinstance(vv, str) and len(vv) > 80 else vv)
